@@ -8,6 +8,8 @@ mod util;
 mod startup_guard;
 mod event_tasks;
 mod scheduler_tasks;
+mod permissions;
+mod routes;
 
 fn main() {
     let args: Vec<String> = std::env::args().collect();
@@ -21,6 +23,8 @@ fn main() {
         "startup_guard" => startup_guard::run(&repo),
         "event_tasks" => event_tasks::run(&repo),
         "scheduler_tasks" => scheduler_tasks::run(&repo),
+        "permissions" => permissions::run(&repo),
+        "routes" => routes::run(&repo, out),
         t => {
             eprintln!("unknown table {t}");
             std::process::exit(2);
